@@ -5,7 +5,8 @@
 // Every case builds one source string (structured generator with varied surface syntax, a mutated valid
 // source, or an arbitrary string), runs the REAL lexer, ParseExpr and String() on it and prints
 //
-//	> parse <tokens>     < ok <ast> | err          real ParseExpr on the text the tokens were lexed from
+//	> parse <tokens>     < ok <ast> + wf 0|1 | err real ParseExpr on the text the tokens were lexed from; wf 0 iff the tree
+//	                                               holds a 0-second range/list offset (the model evaluates its `wf`)
 //	> print <ast>        < toks <tokens>           real String() of the accepted expression, lexed by the real lexer
 //	> parse <tokens>     < ok <ast> | err          real ParseExpr on the printed text
 //
@@ -439,6 +440,32 @@ func hasZeroDuration(e parser.Expr) bool {
 		return zeroIn(n)
 	}
 	return false
+}
+
+// anyZeroDuration: some range / list offset in the tree is 0 seconds (known finding zero-duration); these are the only
+// accepted trees outside the well-formedness predicate of the Lean theorem
+func anyZeroDuration(e parser.Expr) bool {
+	if hasZeroDuration(e) {
+		return true
+	}
+	if _, isMat := e.(*parser.MatrixSelector); isMat {
+		return false
+	}
+	for _, c := range parser.Children(e) {
+		if ce, ok := c.(parser.Expr); ok && ce != nil && anyZeroDuration(ce) {
+			return true
+		}
+	}
+	return false
+}
+
+func wfObs(h *verifx.H, e parser.Expr) {
+	if anyZeroDuration(e) {
+		h.Obs("wf 0")
+		h.Stat("wf.zero-duration", 1)
+	} else {
+		h.Obs("wf 1")
+	}
 }
 
 // smallestFailure descends to the smallest sub-expression whose own round trip fails.
@@ -1133,6 +1160,7 @@ func runCase(h *verifx.H, src string) {
 	}
 	h.Stat("parse.accepted", 1)
 	h.Obs("ok %s", ser(r.e, serOpt{}))
+	wfObs(h, r.e)
 
 	// features, non-trivial rule
 	f := &feat{nodes: map[string]int{}, ops: map[string]int{}}
@@ -1177,6 +1205,7 @@ func runCase(h *verifx.H, src string) {
 		h.Obs("err")
 	default:
 		h.Obs("ok %s", ser(r2.e, serOpt{}))
+		wfObs(h, r2.e)
 	}
 
 	// the direct oracle, independent of the model
